@@ -153,6 +153,15 @@ static void check_raw(u64 raw, long long &ev)
         if (back != mz(canon)) { rep().viol("C15.wrong.toString", cs_ + fmt(" radix=%d", radix), "string is not the canonical value: " + t); break; }
         E g = Goldilocks::fromString(t, radix);
         if (g.fe % GP != canon) { rep().viol("C15.wrong.fromString.roundtrip", cs_ + fmt(" radix=%d", radix), ""); break; }
+        // the reference-output overload with a string the caller has used before (one std::string reused over a sequence of calls):
+        // the text is the value's, not the previous contents followed by it
+        static std::string reused = "123456789abcdef";
+        for (int rep2 = 0; rep2 < 2; rep2++)
+        {
+            Goldilocks::toString(reused, e, radix);
+            ev++;
+            if (reused != t) { rep().viol("C15.wrong.toString.reused-string", cs_ + fmt(" radix=%d", radix), "toString(result, e, radix) with a non-empty result on entry gives \"" + reused.substr(0, 80) + "\", the by-value overload \"" + t + "\""); reused = "7"; break; }
+        }
     }
     // fromU64 round trip (identity below p)
     E h = Goldilocks::fromU64(raw);
